@@ -193,7 +193,7 @@ Definition build_function_definition (spec: dspec) (decl: node) (param_decls: no
     end.
 
 (* ---- constants ------------------------------------------------------------------------ *)
-Definition last_n (n: nat) (s: str) : str := skipn (length s - n) s.
+Definition last_n (n: nat) (s: str) : str := skipn (nsub (length s) n) s.
 Definition count_if (f: N -> bool) (s: str) : nat := length (filter f s).
 Definition is_lL (c: N) : bool := N.eqb c 108 || N.eqb c 76.
 Definition is_uU (c: N) : bool := N.eqb c 117 || N.eqb c 85.
